@@ -615,6 +615,9 @@ Lemma ngc_cache_sites_audited :
   list_eqb pair_eqb cfg_cache_uses audited_cache_uses = true.
 Proof. split; vm_compute; reflexivity. Qed.
 
+Lemma bound_guards_audited : list_eqb str3_eqb cfg_bound_guards audited_bound_guards = true.
+Proof. vm_compute; reflexivity. Qed.
+
 Lemma cache_wiring_audited :
   nodupb (map fst cfg_cache_wiring) = true /\
   forallb (fun w : nat * nat => andb (Nat.ltb (fst w) cello_cache_num) (Nat.ltb (snd w) (List.length cfg_class_names))) cfg_cache_wiring = true /\
